@@ -356,3 +356,46 @@ def q4c(prog):
             elif v.startswith("other:"):
                 raise Broken("initialiser of value_seq::%s at %s has an unmodelled shape: %s" % (fld, loc, v))
     return inst, findings
+
+
+def q3b(prog):
+    """a cache entry becomes visible only when complete: after the insertion into a cache no call that may throw runs in the
+    same function (an exception would leave a half-filled entry that later executions trust)"""
+    import r_api
+    from cfg import CFG
+    inst, findings = [], []
+    mt = r_api.may_throw(prog)
+    n = 0
+    for f in prog.funcs.values():
+        if f.get("cls") not in CACHE_CLASSES:
+            continue
+        g = None
+        for x in calls(f.get("body")):
+            if x.get("fn") in ("insert", "emplace", "try_emplace", "operator[]") and x.get("obj") is not None:
+                o = unwrap(x["obj"])
+                if not (isinstance(o, dict) and o.get("k") == "mem" and o.get("c") in CACHE_CLASSES and o["n"] == CACHE_CLASSES[o["c"]]):
+                    continue
+                n += 1
+                g = g or CFG(f)
+                node = [nn for nn in g.nodes if isinstance(nn.ast, dict) and any(y is x for y in walk_nolambda(nn.ast))]
+                if not node:
+                    raise Broken("cache insertion not found in the CFG of %s" % f["q"])
+                after = g.reachable(start=node[0].id) - {node[0].id}
+                key = "Q3b:%s@%s" % (f["q"], x["l"])
+                bad = None
+                for i in after:
+                    nn = g.nodes[i]
+                    if not isinstance(nn.ast, dict):
+                        continue
+                    thr, wit = mt.stmts_may_throw(f["q"], [nn.ast])
+                    if thr:
+                        bad = (nn.loc, wit)
+                        break
+                inst.append((key, {"may_throw_after_insertion": bool(bad)}))
+                if bad:
+                    findings.append({"key": "Q3b:%s" % f["q"], "where": bad[0] or x["l"],
+                                     "msg": "%s inserts the cache entry at %s and afterwards runs code that may throw (%s): an error while the entry is being filled leaves a partial entry that every later execution on the same Dwarf value answers from" % (f["q"], x["l"], " -> ".join(bad[1][:3])),
+                                     "detail": None})
+    if n < 2:
+        raise Broken("fewer cache insertions than confirmed by hand (2)")
+    return inst, findings
